@@ -17,6 +17,7 @@ characterisation) on every generated input.
 import os, json
 import concurrent.futures as cf
 import vlib
+import c08x
 
 LEVEL = "model_checking"
 ALL = ["jacobi", "sor", "ssor", "poly", "ilu", "scale", "diagonal", "matrix"]
@@ -236,15 +237,20 @@ def run(chk):
     chk.assumptions = ["matrices are restricted to the exact dyadic domain: power-of-two diagonals (ILU: power-of-two pivots), blocked: diagonal "
                        "(ILU: pivot) blocks with determinant +-2^k; inputs whose factorisation leaves it are not generated",
                        "SparseMatrixCSR<double> with UnitFilter and SparseMatrixBCSR<double,Index,BS,BS> (BS = 2, 3) with UnitFilterBlocked, generic "
-                       "backend; Schwarz/Uzawa/Vanka are not covered",
+                       "backend (Uzawa / Vanka / AmaVanka / Schwarz: see the extension below)",
                        "JacobiPrecond/PolynomialPrecond on blocked matrices are the POINTWISE operators (scalar main diagonal), as implemented "
                        "and documented (extract_diag); block-Jacobi is not a FEAT preconditioner",
                        "between a value update and the next init_numeric the result is unspecified: old-operator, new-operator and (Polynomial) "
                        "cached-diagonal/live-matrix results are all accepted",
                        "named deviations of the blocked specification (ssor_unscaled, ilu_left_mult) only refine the clause of a reported mismatch"]
+    # extension (lib/c08x.py): UzawaPrecond, Vanka, AmaVanka, SchwarzPrecond (MPI) and Math::invert_matrix; adds to traces / rule / assumptions
+    c08x.run_ext(chk)
 
 
 def replay(obj):
+    ext = [v for v in obj["violations"] if v.get("replay") and str(v["replay"].get("harness", "")).startswith("c08x")]
+    if ext:
+        return c08x.replay({"violations": ext})
     bins = dict(zip(HARNESS, vlib.build(list(HARNESS.values()))))
     by_h = {v: k for k, v in HARNESS.items()}
     bad = 0
